@@ -136,7 +136,8 @@ static ContentPtr xbuild(const Sx& x) {
   }
   if (h == "ident") {
     ContentPtr c = xbuild(x[1]);
-    c->setidentities();
+    // setidentities insists on consistent lengths below (no unreachable content); leave such layouts without
+    try { c->setidentities(); } catch (std::invalid_argument&) { }
     return c;
   }
   throw std::logic_error("xbuild: unknown node " + x.str());
@@ -188,13 +189,15 @@ static std::string form_block(const FormPtr& form, const util::TypeStrs& ts) {
   try {
     FormPtr back = Form::fromjson(j);
     o += " (form2 " + sxbytes(back->tojson(false, false)) + ")";
-    o += " (equal " + b01(form->equal(back, true, true, true, true)) + b01(back->equal(form, true, true, true, true)) + ")";
+    // Form.__eq__ of the Python layer: every check on, compatibility_check off (an equivalence relation)
+    o += " (equal " + b01(form->equal(back, true, true, true, false)) + b01(back->equal(form, true, true, true, false)) + ")";
+    o += " (equalc " + b01(form->equal(back, true, true, true, true)) + ")";
     o += " (ftype2 " + type_or_err(back, ts) + ")";
-  } catch (std::invalid_argument&) { o += " (form2 err) (equal err) (ftype2 err)"; }
+  } catch (std::invalid_argument&) { o += " (form2 err) (equal err) (equalc err) (ftype2 err)"; }
   try {
     FormPtr backv = Form::fromjson(jv);
     o += " (formv2 " + sxbytes(backv->tojson(false, false)) + ")";
-    o += " (equalv " + b01(form->equal(backv, true, true, true, true)) + ")";
+    o += " (equalv " + b01(form->equal(backv, true, true, true, false)) + ")";
   } catch (std::invalid_argument&) { o += " (formv2 err) (equalv err)"; }
   o += " " + depth_block(form.get(), "fdepth");
   return o;
@@ -215,7 +218,14 @@ static std::string handle(const Sx& cs) {
     util::TypeStrs ts = typestrs_of(cs[2]);
     ContentPtr c = xbuild(cs[3]);
     std::string o = "(";
-    o += "(valid " + b01(c->validityerror("").empty()) + ")";
+    // validityerror is C11's subject; here it only tells which cases the element-typing theorem speaks about
+    // (an optional 4th argument "novalid" skips it: for __array__ = "categorical" validityerror runs is_unique, which
+    // is outside this property and has defects of its own)
+    if (cs.size() > 4 && cs[4].is("novalid")) o += "(valid skipped)";
+    else {
+      try { o += "(valid " + b01(c->validityerror("").empty()) + ")"; }
+      catch (std::exception&) { o += "(valid err)"; }
+    }
     o += " (type " + sxbytes(c->type(ts)->tostring()) + ")";
     o += " (type0 " + sxbytes(c->type(util::TypeStrs())->tostring()) + ")";
     FormPtr form = c->form(true);
@@ -229,7 +239,7 @@ static std::string handle(const Sx& cs) {
     for (auto& p : probes) {
       ContentPtr s = c->getitem_range(p[0], p[1]);
       o += " (" + std::to_string(p[0]) + " " + std::to_string(p[1]) + " " + std::to_string(s->length()) + " "
-           + sxbytes(s->type(ts)->tostring()) + " " + sxbytes(s->form(true)->tojson(false, false)) + ")";
+           + sxbytes(s->type(ts)->tostring()) + ")";
     }
     o += ")";
     // elements
